@@ -170,7 +170,7 @@ class Contract(object):
                  loops=None, modifies=(), result=None, ghost=None,
                  inline=False, lemmas=(), call_effect=None, setup=None,
                  generator=False, notes='', exc_attrs=None,
-                 internal_ensures=()):
+                 internal_ensures=(), internal_raises=None):
         self.name = name
         self.params = params          # ordered dict name -> Spec
         self.requires = list(requires)  # [(label, clause)]
@@ -190,6 +190,7 @@ class Contract(object):
         # post-conditions over the function's own locals: proved when the
         # function is verified, not visible (not assumed) at call sites
         self.internal_ensures = list(internal_ensures)
+        self.internal_raises = dict(internal_raises or {})
         self._parsed = {}
 
     def parsed(self, clause):
@@ -532,8 +533,8 @@ class Engine(object):
     def capture_olds(self, it, c):
         olds = {}
         for label, clause in list(c.ensures) + list(c.internal_ensures) + [
-                (k.__name__, v) for k, v in c.raises.items()
-                if v is not None]:
+                (k.__name__, v) for k, v in list(c.raises.items())
+                + list(c.internal_raises.items()) if v is not None]:
             if callable(clause):
                 continue
             node = c.parsed(clause)
@@ -656,6 +657,11 @@ class Engine(object):
             else z3.BoolVal(True)
         ctx.oblige(label + '.when', goal, kind='exc-post',
                    where=pr.where or '')
+        for icls, iclause in c.internal_raises.items():
+            if issubclass(exc.cls, icls):
+                ctx.oblige(label + '.internal',
+                           self.eval_clause(it, iclause, env),
+                           kind='exc-post', where=pr.where or '')
         ctx.oblige('canary.' + label, z3.BoolVal(False), kind='canary')
 
 
@@ -683,9 +689,17 @@ def discharge(obligations, timeout_s=20, jobs=12, solvers=('z3', 'cvc5')):
             [('full', ob.smt2())]
 
     def one(ob):
-        slices = pre[id(ob)]
+        slices = list(pre[id(ob)])
         t_used = 0.0
         last = None
+        # cheap first attempt on the whole VC; many are easy as they stand
+        if len(slices) > 1:
+            r = smt.solve_text(slices[-1][1], timeout_s=2, solvers=solvers,
+                               want_model=True)
+            t_used += r.time_s
+            if r.status in (smt.UNSAT, smt.SAT):
+                r.time_s = t_used
+                return ob, r
         # refinement on the full VC before the (slow) monolithic attempt
         for name, text in slices:
             full = (name == 'full')
@@ -698,7 +712,7 @@ def discharge(obligations, timeout_s=20, jobs=12, solvers=('z3', 'cvc5')):
                     return ob, r
                 continue
             budget = timeout_s if full else min(
-                timeout_s, 3 if name.startswith('rand') else 6)
+                timeout_s, 3 if name.startswith(('rand', 'euf')) else 6)
             r = smt.solve_text(text, timeout_s=budget, solvers=solvers,
                                want_model=full)
             t_used += r.time_s
